@@ -1,6 +1,7 @@
 package drivers
 
 import (
+	"runtime"
 	"crypto/aes"
 	"crypto/cipher"
 	"crypto/rand"
@@ -111,6 +112,22 @@ func RunKeyFile(c *Ctx) error {
 		// intact file, all passphrases
 		os.WriteFile(path, orig, 0o600)
 		load(path, "none", "", "right", pass, origPub)
+		// the same file on a machine with another number of CPUs (the key derivation must not depend on it)
+		{
+			prev := runtime.GOMAXPROCS(0)
+			for _, procs := range []int{1, 2, 3, 8} {
+				runtime.GOMAXPROCS(procs)
+				load(path, "none", "", "right", pass, origPub)
+			}
+			runtime.GOMAXPROCS(1)
+			dp := filepath.Join(dir, fmt.Sprintf("p%d", fi))
+			sp, errp := filesigner.CreateFileSystemSigner(dp, append([]byte(nil), pass...))
+			runtime.GOMAXPROCS(prev)
+			if errp == nil {
+				pp, _ := sp.GetPublic()
+				load(filepath.Join(dp, "signer.json"), "none", "", "right", pass, pp)
+			}
+		}
 		load(path, "none", "", "wrong", []byte("not the passphrase"), origPub)
 		load(path, "none", "", "empty", []byte{}, origPub)
 		// export / import round trip
